@@ -398,6 +398,16 @@ func (t *TOTP) PostValidate(w http.ResponseWriter, r *http.Request) error {
 		}
 	}
 
+	// The account may have been locked (or otherwise vetoed) since the first
+	// factor was accepted, give the same handlers a chance to refuse the login.
+	r = r.WithContext(context.WithValue(r.Context(), authboss.CTXKeyUser, user))
+	handled, err := t.Authboss.Events.FireBefore(authboss.EventAuth, w, r)
+	if err != nil {
+		return err
+	} else if handled {
+		return nil
+	}
+
 	authboss.PutSession(w, authboss.SessionKey, user.GetPID())
 	authboss.PutSession(w, authboss.Session2FA, "totp")
 
@@ -407,8 +417,7 @@ func (t *TOTP) PostValidate(w http.ResponseWriter, r *http.Request) error {
 
 	logger.Infof("user %s totp 2fa success", user.GetPID())
 
-	r = r.WithContext(context.WithValue(r.Context(), authboss.CTXKeyUser, user))
-	handled, err := t.Authboss.Events.FireAfter(authboss.EventAuth, w, r)
+	handled, err = t.Authboss.Events.FireAfter(authboss.EventAuth, w, r)
 	if err != nil {
 		return err
 	} else if handled {
